@@ -412,10 +412,16 @@ class Path(E):
                 cur = v
                 if v.pi.computed is not None and not (st[1] in tip.own and v.src is tip):
                     # inherited computable: `_merge_items` copies the pointer WITHOUT its
-                    # target_expr, the tracer cannot look inside and loses the type
+                    # target_expr, the tracer cannot look inside and loses the type.  The copy
+                    # still goes through the per-expression recursion guard: a SECOND traversal
+                    # in the same expression bails out and drops the rest of the path
+                    vk = (tip.key, st[1])
+                    if vk in env['visited']:
+                        return strong, weak, None
+                    env['visited'].add(vk)
                     tip = None
                 elif v.pi.computed is not None:
-                    vk = (v.src.key, st[1])
+                    vk = (tip.key, st[1])
                     if vk in env['visited']:
                         return strong, weak, None      # "possibly recursive definition, bail out"
                     env['visited'].add(vk)
@@ -479,6 +485,21 @@ class Op(E):
 
     def text(self, mod):
         return f'({self.a.text(mod)} {self.op} {self.b.text(mod)})'
+
+    def refs(self, env):
+        s1, w1, _ = self.a.refs(env)
+        s2, w2, _ = self.b.refs(env)
+        return s1 | s2, w1 | w2, None
+
+
+@dataclass
+class Cond(E):
+    """(a if true else b): the tracer gives up on the type of an if-else"""
+    a: E
+    b: E
+
+    def text(self, mod):
+        return f'({self.a.text(mod)} if true else {self.b.text(mod)})'
 
     def refs(self, env):
         s1, w1, _ = self.a.refs(env)
@@ -995,7 +1016,7 @@ class Gen:
         if links:
             ch += ['nav', 'nav', 'lprop', 'countl', 'unknown', 'unknown', 'for', 'for', 'with']
         if clinks:
-            ch += ['countcl', 'countcl']
+            ch += ['countcl', 'countcl', 'navc', 'navc']
         fs = [f for f in u.fns if f.params[0][1] == 'str']
         if fs and depth < 2:
             ch.append('fn')
@@ -1040,6 +1061,16 @@ class Gen:
             return Cast('str', Call(None, 'count', [Path(None, [('p', l)])]))
         if c == 'countl':
             return Cast('str', Call(None, 'count', [Path(None, [('p', rng.choice(links))])]))
+        if c == 'navc':
+            # continue the path PAST a computed link (own: the tracer infers / caches the target
+            # or gives up; inherited: it always gives up and falls back to weak by-name refs)
+            l = rng.choice(clinks)
+            tt = vis[l].pi.target
+            qs = [pn for pn, v in visible(tt, {}).items() if v.pi.kind == 'prop' and v.pi.target != 'int64'
+                  and v.pi.computed is None] if isinstance(tt, TypeInfo) else []
+            if qs:
+                return Path(None, [('p', l), ('p', rng.choice(qs))])
+            return Cast('str', Call(None, 'count', [Path(None, [('p', l)])]))
         if c == 'countcl':
             return Cast('str', Call(None, 'count', [Path(None, [('p', rng.choice(clinks))])]))
         if c == 'unknown':
@@ -1083,6 +1114,9 @@ class Gen:
                     if vis[l].pi.computed is None:
                         e = Path(None, [('p', l)])
                         tgt = vis[l].pi.target
+                        if self.chance(0.35):
+                            # a form whose type the tracer cannot infer
+                            e = Call(None, 'assert_exists', [e]) if self.chance(0.5) else Cond(e, e)
                 if e is None and r < 0.7:
                     # backlink: some type U with a regular link l
                     up = [t] + ancestors(t)
